@@ -19,7 +19,59 @@ INTERNAL_MARKERS = (':start:', ':wflips:', '_.wflip_area_start_')
 def plan(tier: str, seed: int) -> List[Dict[str, Any]]:
     quick = tier == 'quick'
     n, per = (16, 200) if quick else (64, 4000)
-    return [{'seed': seed, 'shard': i, 'cases': per, 'timeout_s': 1500 if quick else 7200} for i in range(n)]
+    out = [{'seed': seed, 'shard': i, 'cases': per, 'timeout_s': 1500 if quick else 7200} for i in range(n)]
+    # tables larger than the compressor's window (the repository's big programs have 10-25MiB of label text)
+    for i, mib in enumerate([10] if quick else [10, 20, 40, 70]):
+        out.append({'kind': 'large-table', 'seed': seed, 'shard': i, 'mib': mib, 'timeout_s': 3000})
+    return out
+
+
+def shard_large_table(spec: Dict[str, Any]) -> Dict[str, Any]:
+    """a label table of `mib` MiB of JSON whose names repeat across its whole length (as the expansion paths of one heavy macro
+    called at the start and at the end of a big program do): saved, loaded, compared; breakpoints resolved on the loaded file."""
+    from flipjump.interpreter.debugging.breakpoints import get_breakpoint_handler
+    from flipjump.utils.functions import load_debugging_labels, save_debugging_labels
+
+    rng = rng_for(spec['seed'], PROPERTY, 'large-table', spec['shard'])
+    target = spec['mib'] << 20
+    table: Dict[str, int] = {}
+    size = 0
+    heads: List[str] = []
+    alphabet = 'abcdefghijklmnopqrstuvwxyz_0123456789'
+    while size < target:
+        depth = rng.choice([1, 2, 3, 5])
+        path = '---'.join(f'f{rng.randrange(1, 40)}:l{rng.randrange(1, 3000)}:' + ''.join(rng.choice(alphabet) for _ in range(rng.choice([4, 9, 20])))
+                          + f'({rng.randrange(6)})' for _ in range(depth))
+        name = f'{path}---' + ''.join(rng.choice(alphabet) for _ in range(rng.choice([3, 8])))
+        if len(heads) < 4000:
+            heads.append(name)
+        elif size > target - (1 << 20):   # the tail repeats the head's paths under a new first element
+            name = f'f99:l{len(table)}:tail(0)---' + heads[len(table) % len(heads)]
+        if name in table:
+            continue
+        table[name] = 128 * rng.randrange(1, 1 << 30)
+        size += len(name) + 16
+    path = engines.tmpdir() / 'large.fjd'
+    violations: List[Dict[str, Any]] = []
+    counters: Dict[str, Any] = {'large_tables': 1, 'large_table_labels': len(table), 'monitor_evaluations': 1}
+    replay = {'kind': 'large-table', 'spec': spec}
+    try:
+        save_debugging_labels(path, table)
+        loaded = load_debugging_labels(path)
+        if loaded != table or list(loaded) != list(table):
+            violations.append({'key': 'save-load-roundtrip/large-table', 'what': f'table of {len(table)} labels ({spec["mib"]}MiB) changed in the round trip',
+                               'replay': replay})
+        needle = heads[7].split('---')[0]
+        handler = get_breakpoint_handler(path, set(), {heads[3]}, {needle})
+        want = {table[heads[3]]} | {a for n, a in table.items() if needle in n}
+        counters['breakpoint_queries'] = 1
+        if set(handler.breakpoints) != want:
+            violations.append({'key': 'breakpoint-resolution/large-table', 'what': f'{len(handler.breakpoints)} breakpoints, want {len(want)}', 'replay': replay})
+    except Exception as exc:  # noqa: B902 - a saved table that cannot be loaded back is the violation, whatever is raised
+        violations.append({'key': 'save-load-roundtrip/large-table', 'what': f'table of {len(table)} labels ({spec["mib"]}MiB): {type(exc).__name__}: {exc}',
+                           'replay': replay})
+    engines.cleanup_tmpdir()
+    return {'counters': counters, 'violations': violations, 'hashes': [f'large-table:{spec["mib"]}'], 'samples': [], 'evaluations': 1}
 
 
 def check_macro_program(rng: random.Random, counters: Dict[str, Any]) -> Tuple[List[Tuple[str, str, Any]], Optional[str]]:
@@ -32,6 +84,7 @@ def check_macro_program(rng: random.Random, counters: Dict[str, Any]) -> Tuple[L
         return [], None
     out: List[Tuple[str, str, Any]] = []
     replay = {'files': gen.files, 'inlined': gen.inlined, 'w': gen.w, 'expected': gen.expected_labels}
+    counters['statements_continued_over_two_lines'] = counters.get('statements_continued_over_two_lines', 0) + gen.continuations
     for name, unique in gen.expected_labels.items():
         counters['labels_checked'] = counters.get('labels_checked', 0) + 1
         if '---' in name:
@@ -114,6 +167,8 @@ def check_roundtrip_and_breakpoints(rng: random.Random, counters: Dict[str, Any]
 
 
 def run_shard(spec: Dict[str, Any], journal: Any) -> Dict[str, Any]:
+    if spec.get('kind') == 'large-table':
+        return shard_large_table(spec)
     rng = rng_for(spec['seed'], PROPERTY, spec['shard'])
     counters: Dict[str, Any] = {}
     violations: List[Dict[str, Any]] = []
@@ -152,6 +207,8 @@ def finalize(tier: str, seed: int, counters: Dict[str, Any], evaluations: int, d
                        ('roundtrips', 200), ('breakpoint_queries', 200)):
         if counters.get(key, 0) < floor:
             inconclusive.append(f'{key}={counters.get(key, 0)} below floor {floor}')
+    if not counters.get('large_tables'):
+        inconclusive.append('no table larger than the compression window went through the round trip')
     return {
         'coverage': {
             'rule': 'generated macro programs (call DAGs, reps, namespaces, 1-3 files; see C03) and primitive programs: every source '
